@@ -16,6 +16,8 @@ def plan(tier, seed):
     # directories): same harnesses as C07
     jobs.append(ch("C09", "vf/pyshim/h_c08.py", "h_overwrite_key_text", t, ["util.path_string",
                                                                             "writer.overwrite (key text expression)"]))
+    jobs.append(ch("C09", F, "h_part_ids", t, ["api.part_ids"]))
+    jobs.append(ch("C09", "vf/pyshim/h_c08.py", "h_partition_rows", t, ["writer.partition_on_columns"]))
     jobs.append(ch("C09", G, "h_find_max_part", t, ["writer.find_max_part", "api.part_ids"]))
     jobs.append(ch("C09", G, "h_find_max_part_dirs", t, ["writer.find_max_part", "api.part_ids"]))
     jobs.append(ch("C09", G, "h_find_max_part_order", t, ["writer.find_max_part", "api.part_ids"]))
